@@ -33,6 +33,7 @@ func c09Gen(r *rand.Rand, tier string) []spec.Case {
 		add("mux", "matched-then-dial-again:"+s)
 		add("grpc", "staggered-dials-then-accept:"+s)
 		add("grpc", "accept-twice:"+s)
+		add("grpc", "dial-timeout-then-accept-twice:"+s)
 		add("grpcmux", "accept-twice:"+s)
 	}
 	// random histories of length 2-4 (the stale-knock step of grpcmux only in its dedicated single-step cases above)
@@ -47,7 +48,7 @@ func c09Gen(r *rand.Rand, tier string) []spec.Case {
 			pool = append(pool, "accept-at-expiry", "dial-timeout-then-accept", "staggered-dials-then-accept", "matched-then-dial-again")
 		}
 		if k == "grpc" {
-			pool = append(pool, "dial-timeout-then-accept", "accept-twice")
+			pool = append(pool, "dial-timeout-then-accept", "accept-twice", "dial-timeout-then-accept-twice")
 		}
 		m := 2 + r.Intn(3)
 		var steps []string
@@ -121,6 +122,10 @@ func c09Judge(c spec.Case, evs []spec.Event, d *Death) CaseResult {
 				if e == "" {
 					viol("unmatched-dial-succeeded", fmt.Sprintf("step %s: a dial with no accept succeeded", s.Step))
 				}
+			}
+		case "dial-timeout-then-accept-twice":
+			if len(s.Errs) > 0 && s.Errs[0] == "dial: " {
+				viol("unmatched-dial-succeeded", fmt.Sprintf("step %s: a dial with no accept succeeded", s.Step))
 			}
 		case "matched-then-dial-again":
 			for _, e := range s.Errs {
